@@ -34,6 +34,14 @@ logging.raiseExceptions = False
 
 
 # --------------------------------------------------------------------------- faults
+class HarnessAbort(BaseException):
+    """Raised by the harness itself (e.g. the per-plan alarm): never a verdict about the code under
+    test, must pass through every actor and every `except` of Act.run."""
+
+
+ACTIVATION_DIGESTS = []  # (result digest, event digest) of every activation of the current plan, in order
+
+
 class SimCrash(BaseException):
     """Process death injected at an event index."""
 
@@ -139,7 +147,12 @@ def _install_interceptors():
             xb = hashlib.sha256(np.ascontiguousarray(a[0] if a else k["x0"], dtype=float).tobytes()).hexdigest()[:16]
         except Exception:  # noqa: BLE001
             xb = None
-        act.ls_log.append((ev0, act.n_events, None if r is None else float(r), dn, xb))
+        try:
+            x_, d_, lb_, ub_ = (np.asarray(v, dtype=float) for v in (a[0], a[3], a[4], a[5]))
+            blocked = bool(np.any(((d_ > 0) & (x_ >= ub_)) | ((d_ < 0) & (x_ <= lb_))))
+        except Exception:  # noqa: BLE001
+            blocked = False
+        act.ls_log.append((ev0, act.n_events, None if r is None else float(r), dn, xb, blocked))
         return r
 
     def update_lbfgs_matrices(*a, **k):
@@ -472,6 +485,7 @@ class Act:
                     raise make_exc(f["exc"], "%s#%d" % (actor, j))
                 if f["kind"] == "nest" and self.world is not None:
                     self.fired["nest"] += 1
+                    self.fired["nest_in_ls"] += 1 if self.in_ls else 0
                     self.world.run_nested(self, f)
         return j
 
@@ -736,6 +750,8 @@ class Act:
             self.crashed = e
             if isinstance(e, SimInterrupt):
                 self.fired["interrupt"] += 1
+        except HarnessAbort:
+            raise
         except BaseException as e:  # noqa: BLE001 - recorded, judged by the oracle
             self.exc = e
         finally:
@@ -748,6 +764,7 @@ class Act:
         self.globals_changed = sorted(k for k in g_before if g_before[k] != g_after.get(k))
         if self._fstream is not None:
             self.fired["log_fail"] += self._fstream.attempts
+        ACTIVATION_DIGESTS.append((self.result_digest(), self.event_digest()))
         return self
 
     # ---- digests
